@@ -275,7 +275,7 @@ func runC06(r *vk.Run) {
 		return m, true
 	}
 
-	r.Phase("json", r.N(8000, 150000), func(c *vk.Case) {
+	r.Phase("json", r.N(8000, 1000000), func(c *vk.Case) {
 		rng := c.Rng
 		doc := genJObj(rng, 2, rng.Range(0, 6))
 		line := jText(doc)
@@ -435,7 +435,7 @@ func runC06(r *vk.Run) {
 	})
 
 	lfKeys := []string{"a", "b", "level", "status", "dur", "k9", "_u", "user", "msgid", "ts"}
-	r.Phase("logfmt", r.N(6000, 100000), func(c *vk.Case) {
+	r.Phase("logfmt", r.N(6000, 600000), func(c *vk.Case) {
 		rng := c.Rng
 		var pairs [][2]string
 		used := map[string]bool{}
@@ -544,7 +544,7 @@ func runC06(r *vk.Run) {
 
 	delims := []string{" ", " - ", "|", "] [", "\"", ", ", "::", "\t"}
 	fieldVals := []string{"alice", "10.0.0.5", "GET", "/api/v1", "200", "x", "ünï", "a.b", "k=v", "(p)", "", "r42"}
-	r.Phase("pattern", r.N(6000, 100000), func(c *vk.Case) {
+	r.Phase("pattern", r.N(6000, 600000), func(c *vk.Case) {
 		rng := c.Rng
 		n := rng.Range(1, 4)
 		var pat, line strings.Builder
@@ -629,7 +629,7 @@ func runC06(r *vk.Run) {
 		}
 	})
 
-	r.Phase("regexp", r.N(1500, 40000), func(c *vk.Case) {
+	r.Phase("regexp", r.N(1500, 300000), func(c *vk.Case) {
 		rng := c.Rng
 		n := rng.Range(1, 4)
 		d := vk.Pick(rng, []string{" ", "|", ";", " - "})
@@ -685,7 +685,7 @@ func runC06(r *vk.Run) {
 		c.Nontrivial("regexp:" + line + stage)
 	})
 
-	r.Phase("unpack", r.N(1500, 40000), func(c *vk.Case) {
+	r.Phase("unpack", r.N(1500, 300000), func(c *vk.Case) {
 		rng := c.Rng
 		entry := vk.Pick(rng, c06Strings)
 		o := &jObj{Vals: map[string]any{}}
@@ -745,7 +745,7 @@ func runC06(r *vk.Run) {
 	})
 
 	// an existing label of the same name is overridden
-	r.Phase("override", r.N(400, 8000), func(c *vk.Case) {
+	r.Phase("override", r.N(400, 100000), func(c *vk.Case) {
 		rng := c.Rng
 		v := vk.Pick(rng, c06Strings)
 		if !utf8.ValidString(v) {
@@ -777,7 +777,7 @@ func runC06(r *vk.Run) {
 	})
 
 	// malformed lines: kept, unchanged, flagged (json/logfmt/unpack); non-matching: kept unchanged
-	r.Phase("malformed", r.N(150, 3000), func(c *vk.Case) {
+	r.Phase("malformed", r.N(150, 40000), func(c *vk.Case) {
 		rng := c.Rng
 		doc := genJObj(rng, 2, rng.Range(1, 5))
 		full := jText(doc)
